@@ -53,16 +53,9 @@ def gen_source(rng):
                 ln = ln.replace("R5", "R12").replace("R3", "R12").replace("R2", "R13")
             out.append(ln)
         if rng.random() < 0.3:
-            # calls and returns whose two operands are one register, or whose second operand is FP itself: the order of
-            # the two exchanges shows (seed C06h read all three registers first and wrote them afterwards)
-            k = rng.randrange(1000)
-            a, b = rng.choice([("R12", "R12"), ("R12", "R14"), ("R13", "R13"), ("R14", "R14"), ("R5", "R14"), ("R14", "R13")])
-            op = rng.choice(["CALL", "RETURN"])
-            out += ["SET(%s, 0x%x)" % (a, rng.randrange(65536)), "SET(R14, 0x%x)" % rng.randrange(65536),
-                    "SET(%s, alias%d)" % (b, k), "%s(%s, %s)" % (op, a, b), "LABEL(alias%d)" % k,
-                    "MOVE(R6, R12)", "MOVE(R7, R13)", "MOVE(R8, R14)", "MOVE(R9, R5)"]
-        if rng.random() < 0.3:
-            # instruction words written as OPCODE, the same word more than once (seed C06i: a cache in disassemble
+            # instruction words written as OPCODE, the same word more than once (inserted before the aliasing family below is appended:
+            # between a RETURN(Ra, Ra) and its target they would expose the order of the two exchanges, which the ISA
+            # leaves open - a false alarm of the first full pass; seed C06i: a cache in disassemble
             # handed every occurrence of a word the same operation object, and encoding it consumed its operands)
             for _ in range(rng.choice([1, 2])):
                 rd, ra, rb = rng.randrange(1, 11), rng.randrange(11), rng.randrange(11)
@@ -72,6 +65,15 @@ def gen_source(rng):
                 for _ in range(rng.choice([2, 2, 3])):
                     first = max([i + 1 for i, l in enumerate(out) if l.split("(")[0] in ("DLABEL", "INTEGER", "LP_STRING", "DSKIP", "TIGER_STRING")] or [0])
                     out.insert(rng.randrange(first, len(out) + 1), "OPCODE(0x%04x)" % w)
+        if rng.random() < 0.3:
+            # calls and returns whose two operands are one register, or whose second operand is FP itself: the order of
+            # the two exchanges shows (seed C06h read all three registers first and wrote them afterwards)
+            k = rng.randrange(1000)
+            a, b = rng.choice([("R12", "R12"), ("R12", "R14"), ("R13", "R13"), ("R14", "R14"), ("R5", "R14"), ("R14", "R13")])
+            op = rng.choice(["CALL", "RETURN"])
+            out += ["SET(%s, 0x%x)" % (a, rng.randrange(65536)), "SET(R14, 0x%x)" % rng.randrange(65536),
+                    "SET(%s, alias%d)" % (b, k), "%s(%s, %s)" % (op, a, b), "LABEL(alias%d)" % k,
+                    "MOVE(R6, R12)", "MOVE(R7, R13)", "MOVE(R8, R14)", "MOVE(R9, R5)"]
         if rng.random() < 0.7:
             out.append("HALT()")
         text = "\n".join(out) + "\n"
